@@ -157,7 +157,9 @@ func (p *memoryState[T]) SMembers(key string) ([]string, error) {
 		return []string{}, err
 	}
 
-	return set.([]string), nil
+	// Return a copy: SRem edits the stored slice in place, which would shift the
+	// elements under a caller that is still iterating over the returned members.
+	return append([]string{}, set.([]string)...), nil
 }
 
 func (p *memoryState[T]) SRem(key string, value string) error {
